@@ -372,11 +372,38 @@ func run(c *core.Ctx) {
 
 	bySize := rxref.Regexes(rxref.AtomsC24(), maxNodes)
 	var mu sync.Mutex
+	// Shards run in parallel: keep, per key, the simplest failing case (fewest AST nodes, fewest
+	// rules, shortest text, then the textual order) so that the recorded example is deterministic.
+	type kept struct {
+		f     finding
+		count int
+	}
+	best := map[string]*kept{}
+	cost := func(f finding) string {
+		nodes := 0
+		for _, r := range f.c.Rules {
+			nodes += r.AST.Size()
+		}
+		return fmt.Sprintf("%03d/%d/%d/%s", nodes, len(f.c.Rules), len(f.c.Input), f.what)
+	}
 	report := func(f finding) {
 		mu.Lock()
 		defer mu.Unlock()
-		c.Violate(f.key, f.what, f.c)
+		k := best[f.key]
+		if k == nil {
+			best[f.key] = &kept{f, 1}
+			return
+		}
+		k.count++
+		if cost(f) < cost(k.f) {
+			k.f = f
+		}
 	}
+	defer func() {
+		for key, k := range best {
+			c.Violate(key, fmt.Sprintf("%s [%d failing rule sets]", k.f.what, k.count), k.f.c)
+		}
+	}()
 	pool := make(chan *worker, 16)
 	for i := 0; i < 16; i++ {
 		w, err := newWorker()
